@@ -171,3 +171,66 @@ def replay(run, pid, res, seed, judge=lambda beh: True, limit=None):
         src, _ = agg.concretize(b["prog"], cmds, seed)
         run.sample({"abstract_program": [[cmds[p["ci"] - 1]["k"], p["d"]] for p in b["prog"]], "concrete": src})
     return len(behs)
+
+
+# ---------------------------------------------------------------- C04: pairs of layouts
+def norm_crlf(page):
+    return "\n".join(l for l in page.replace("\r", "").split("\n") if l.strip())
+
+
+def c04_chunk(args):
+    chunk, cmds, pats, seed, trivia, nvar = args
+    out = []
+    for n, beh in chunk:
+        prog, inc = beh["prog"], beh["inc"]
+        settings = agg.make_settings(inc, pats)
+        res = None
+        for flt in (False, True):
+            items = agg.items_of(prog, cmds, seed * 1000003 + n, first_line_text=flt)
+            base = agg.render_baseline(items)
+            st0, page0, _, _ = agg.run_real(base, settings)
+            if st0 != "ok":
+                res = ({"source": base, "features": {"variant": "baseline", "first_line_text": flt}}, "page", page0,
+                       "the pipeline raised on the baseline layout")
+                break
+            variants = [("layout-%d" % v, agg.render_variant(items, trivia, seed * 7 + n * 31 + v)) for v in range(nvar)]
+            variants.append(("crlf", base.replace("\n", "\r\n")))
+            for vname, src in variants:
+                st, page, _, _ = agg.run_real(src, settings)
+                if st != "ok":
+                    res = ({"source": src, "baseline": base, "features": {"variant": vname, "first_line_text": flt}}, page0, page,
+                           "the pipeline raised on a layout variant of a module it accepts")
+                    break
+                same = (norm_crlf(page) == norm_crlf(page0)) if vname == "crlf" else (page == page0)
+                if not same:
+                    res = ({"source": src, "baseline": base, "features": {"variant": vname, "first_line_text": flt}}, page0, page,
+                           "the generated page depends on layout, comments, command-name case or line endings")
+                    break
+            if res:
+                break
+        out.append((n, res))
+    return out
+
+
+def replay_c04(run, res, trivia, seed, limit, nvar):
+    cmds = res.lines["CMDS"][0]
+    pats = res.lines["PATS"][0]
+    behs = [b for b in res.lines.get("BEH", []) if not b["dimpl"]]
+    if limit and len(behs) > limit:
+        behs = random.Random(seed).sample(behs, limit)
+        run.exhaustive = False
+    items = list(enumerate(behs))
+    chunks = [(items[i::lib.NCPU * 4], cmds, pats, seed, trivia, nvar) for i in range(lib.NCPU * 4)]
+    chunks = [c for c in chunks if c[0]]
+    with ProcessPoolExecutor(max_workers=lib.NCPU, initializer=_init_worker, initargs=(lib.CMINX_SRC,)) as ex:
+        for part in ex.map(c04_chunk, chunks):
+            for n, r in part:
+                run.behaviours += 1
+                run.notes["layout_pairs"] = run.notes.get("layout_pairs", 0) + 2 * (nvar + 1)
+                run.count(json.dumps(behs[n]["prog"]))
+                if r:
+                    case, exp, got, why = r
+                    run.violation(case, exp, got, why)
+    if behs:
+        its = agg.items_of(behs[0]["prog"], cmds, seed)
+        run.sample({"baseline": agg.render_baseline(its), "variant": agg.render_variant(its, trivia, seed)})
